@@ -21,7 +21,7 @@ def tasks(tier):
     ts = [W('count_data_dict', 'c13_count_data_dict'),
           W('from_count_dict.1D', 'c13_from_count_dict', npop=1),
           W('from_count_dict.2D', 'c13_from_count_dict', npop=2),
-          W('fragment_data_dict', 'c13_fragment_data_dict'), W('subsample_call_sites', 'c13_subsample_call_sites'),
+          W('fragment_data_dict', 'c13_fragment_data_dict'), W('subsample_call_sites', 'c13_subsample_call_sites'), W('allele_filters', 'c13_allele_filters'),
           W('bootstraps_from_chunks', 'c13_bootstraps_from_chunks'),
           W('S_frame', 'c13_S_frame'),
           W('statistics.n4', 'c13_statistics', n=4),
